@@ -11,6 +11,9 @@ import LinVerif.Generated.C18
 import LinVerif.Lemmas.C18Assign
 import LinVerif.Lemmas.C18Master
 import LinVerif.Lemmas.C18Config
+import LinVerif.Model.C18State
+import LinVerif.Lemmas.C18State
+import LinVerif.Lemmas.C18Order
 
 namespace LinVerif.Props.C18
 open LinVerif LinVerif.Assign LinVerif.Master LinVerif.Lemmas.C18
@@ -897,6 +900,328 @@ example :
     (wstep w (.cfg 0 4 2 1 1 { get := true, list := false, put := false })).store.asgs = [(0, [(0, [1, 2]), (1, [2, 1])])] ∧
     (wstep w (.cfg 0 4 2 1 1 Faults.none)).store.asgs
       = [(0, [(0, [1, 2]), (1, [2, 1]), (2, [4, 2]), (3, [1, 3])])] := by
+  decide
+
+/-! ## 10. Round 10: the `models.StorageState` helpers, any replay order at start-up, the consumers of
+the published state, the elect-leader choice function -/
+
+/-- models/state.go: `LeadersOnNode` / `ReplicasOnNode` append to `result[name]` (the list of THIS database, created by its first match — no scratch slice shared between databases), `DropDatabase` deletes the two entries keyed by the name, `NodeOnline` / `NodeOffline` set / delete one key; `Replica.Contain` is a linear search: `collectOnNode`, `dropDatabase`, `nodeOnline`, `nodeOffline` of Model/C18State.lean -/
+theorem tie_state_helpers :
+    Generated.C18.leadersOnNodeShape = ["assign result = make(map[string][]ShardID)", "range name,shards := s.ShardStates", "{", "range shardID,shard := shards", "{", "if", "cond shard.Leader == nodeID", "{", "assign result[name] = append(result[name], shardID)", "}", "}", "}", "return result"] ∧
+    Generated.C18.replicasOnNodeShape = ["assign result = make(map[string][]ShardID)", "range name,shardAssignment := s.ShardAssignments", "{", "assign shards = shardAssignment.Shards", "range shardID,replicas := shards", "{", "if", "cond replicas.Contain(nodeID)", "{", "assign result[name] = append(result[name], shardID)", "}", "}", "}", "return result"] ∧
+    Generated.C18.dropDatabaseShape = ["delete(s.ShardStates, name)", "delete(s.ShardAssignments, name)"] ∧
+    Generated.C18.nodeOnlineShape = ["assign s.LiveNodes[node.ID] = node"] ∧
+    Generated.C18.nodeOfflineShape = ["delete(s.LiveNodes, nodeID)"] ∧
+    Generated.C18.replicaContainShape = ["range _,id := r.Replicas", "{", "if", "cond id == nodeID", "{", "return true", "}", "}", "return false"] := by
+  decide
+
+/-- `ElectLeader`: unknown shard → error; the live replicas are collected IN REPLICA ORDER into a fresh list; none → error; the first one is the leader: `Assign.electLeader` = `find?` -/
+theorem tie_electLeader :
+    Generated.C18.electLeaderShape = ["assign replicas,ok = shardAssignment.Shards[shardID]", "if", "cond !ok", "{", "assign err = constants.ErrShardNotFound", "return", "}", "assign liveReplicaNodes = models.Replica{}", "range _,replica := replicas.Replicas", "{", "if", "assign _,ok = liveNodes[replica]", "cond ok", "{", "assign liveReplicaNodes.Replicas = append(liveReplicaNodes.Replicas, replica)", "}", "}", "if", "cond len(liveReplicaNodes.Replicas) == 0", "{", "assign err = constants.ErrNoLiveReplica", "return", "}", "assign leader = liveReplicaNodes.Replicas[0]", "return"] := by
+  decide
+
+/-- the node handlers: `onStorageNodeStartup` = NodeOnline → onNodeStartup → syncState, `onStorageNodeFailure` = NodeOffline → onNodeFailure → syncState (an unparsable key returns before touching the state); `onNodeStartup` walks `ReplicasOnNode`, skips databases without shard states, sets Online/leader only when the shard is not online; `onNodeFailure` walks `LeadersOnNode` (taken before the loop) and stores what `ElectLeader` says: `step2` -/
+theorem tie_node_handlers :
+    Generated.C18.onStorageNodeStartupShape = ["assign node = models.StatefulNode{}", "if", "assign err = json.Unmarshal(data, &node)", "cond err != nil", "{", "return err", "}", "assign s = m.storage.GetState()", "s.NodeOnline(node)", "m.onNodeStartup(s, node)", "return m.syncState(s)"] ∧
+    Generated.C18.onStorageNodeFailureShape = ["assign _,nodeIDStr = filepath.Split(key)", "assign id,err = strconv.ParseInt(nodeIDStr, 10, 64)", "if", "cond err != nil", "{", "return nil", "}", "assign s = m.storage.GetState()", "assign nodeID = models.NodeID(id)", "s.NodeOffline(nodeID)", "m.onNodeFailure(s, nodeID)", "return m.syncState(s)"] ∧
+    Generated.C18.onNodeStartupShape = ["assign replicasOnOnlineNode = state.ReplicasOnNode(node.ID)", "range db,shards := replicasOnOnlineNode", "{", "if", "assign shardStates,ok = state.ShardStates[db]", "cond ok", "{", "range _,shardID := shards", "{", "assign shardState = shardStates[shardID]", "if", "cond shardState.State != models.OnlineShard", "{", "assign shardState.State = models.OnlineShard", "assign shardState.Leader = node.ID", "}", "assign shardStates[shardID] = shardState", "}", "}", "}"] ∧
+    Generated.C18.onNodeFailureShape = ["assign leadersOnOfflineNode = state.LeadersOnNode(nodeID)", "assign liveNodes = state.LiveNodes", "range db,shards := leadersOnOfflineNode", "{", "assign shardAssignment = state.ShardAssignments[db]", "assign shardStates = state.ShardStates[db]", "range _,shardID := shards", "{", "assign leader,err = m.elector.ElectLeader(shardAssignment, liveNodes, shardID)", "assign shardState = shardStates[shardID]", "if", "cond err != nil", "{", "assign shardState.State = models.OfflineShard", "assign shardState.Leader = models.NoLeader", "}", "else", "{", "assign shardState.State = models.OnlineShard", "assign shardState.Leader = leader", "}", "assign shardStates[shardID] = shardState", "}", "}"] := by
+  decide
+
+/-- `onShardAssignmentChange` = decode → remember → initializeShardState → syncState; `initializeShardState` builds ONE state per shard of the assignment whatever the live set is (no early return) and stores assignment and states under the database name; `onDatabaseCfgDelete` of an unknown database returns before any change, otherwise forget → DropDatabase → syncState → DropDatabaseAssignment -/
+theorem tie_assignment_and_drop_handlers :
+    Generated.C18.onShardAssignmentChangeShape = ["assign shardAssignment = &models.ShardAssignment{}", "if", "assign err = encoding.JSONUnmarshal(data, shardAssignment)", "cond err != nil", "{", "return err", "}", "assign m.shardAssignments[shardAssignment.Name] = shardAssignment", "m.initializeShardState(m.storage, shardAssignment)", "return m.syncState(m.storage.GetState())"] ∧
+    Generated.C18.initializeShardStateShape = ["assign storageState = storage.GetState()", "assign liveNodes = storageState.LiveNodes", "assign shardStates = make(map[models.ShardID]models.ShardState)", "range shardID,replicas := shardAssignment.Shards", "{", "assign leader,err = m.elector.ElectLeader(shardAssignment, liveNodes, shardID)", "assign shardState = models.ShardState{…}", "if", "cond err != nil", "{", "assign shardState.State = models.OfflineShard", "assign shardState.Leader = models.NoLeader", "}", "else", "{", "assign shardState.State = models.OnlineShard", "assign shardState.Leader = leader", "}", "assign shardStates[shardID] = shardState", "}", "assign storageState.ShardAssignments[shardAssignment.Name] = shardAssignment", "assign storageState.ShardStates[shardAssignment.Name] = shardStates"] ∧
+    Generated.C18.onDatabaseCfgDeleteShape = ["assign name = strings.TrimPrefix(key, constants.GetDatabaseConfigPath(\"\"))", "assign _,ok = m.databases[name]", "if", "cond !ok", "{", "return constants.ErrDatabaseNotFound", "}", "delete(m.databases, name)", "delete(m.shardAssignments, name)", "m.storage.GetState().DropDatabase(name)", "if", "assign err = m.syncState(m.storage.GetState())", "cond err != nil", "{", "return err", "}", "if", "assign err = m.storage.DropDatabaseAssignment(name)", "cond err != nil", "{", "return err", "}", "return nil"] := by
+  decide
+
+/-- what is published under /storage/state and who reads it: the JSON field names of StorageState / ShardState / Replica, the source files naming the key (the master writes it in syncState; the master's and the broker's state-machine factories register it), the broker storing the decoded state as it is and `GetQueryableReplicas` sending every ONLINE shard to `liveNodes[shardState.Leader]` (`queryTargets`) -/
+theorem tie_published_shape :
+    Generated.C18.storageStateJSON = ["LiveNodes map[NodeID]StatefulNode json:\"liveNodes\"", "ShardAssignments map[string]*ShardAssignment json:\"shardAssignments\"", "ShardStates map[string]map[ShardID]ShardState json:\"shardStates\""] ∧
+    Generated.C18.shardStateJSON = ["Replica Replica json:\"replica\"", "ID ShardID json:\"id\"", "State ShardStateType json:\"state\"", "Leader NodeID json:\"leader\""] ∧
+    Generated.C18.replicaJSON = ["Replicas []NodeID json:\"replicas\""] ∧
+    Generated.C18.storageStatePathUsers = ["coordinator/broker/state_machine_factory.go x2", "coordinator/master/state_machine_factory.go x1", "coordinator/master/state_manager.go x1"] ∧
+    Generated.C18.brokerOnStorageStateChangeShape = ["assign newState = &models.StorageState{}", "if", "assign err = encoding.JSONUnmarshal(data, newState)", "cond err != nil", "{", "return err", "}", "assign oldState = m.storageState", "assign liveNodesSet = make(map[string]struct{})", "range idx := newState.LiveNodes", "{", "assign node = newState.LiveNodes[idx]", "assign liveNodesSet[node.Indicator()] = struct{}{}", "m.connectionManager.CreateConnection(&node)", "}", "range _,node := oldState.LiveNodes", "{", "assign target = node.Indicator()", "if", "assign _,exist = liveNodesSet[target]", "cond !exist", "{", "m.connectionManager.CloseConnection(&node)", "}", "}", "assign m.storageState = newState", "m.notifyShardStateChange(newState)", "return nil"] ∧
+    Generated.C18.brokerGetQueryableReplicasShape = ["m.mutex.RLock()", "defer mutex.RUnlock", "assign _,ok = m.databases[databaseName]", "if", "cond !ok", "{", "return nil,constants.ErrDatabaseNotFound", "}", "assign liveNodes = m.storageState.LiveNodes", "if", "cond len(liveNodes) == 0", "{", "return nil,constants.ErrNoLiveNode", "}", "assign shards = m.storageState.ShardStates[databaseName]", "if", "cond len(shards) == 0", "{", "return nil,constants.ErrShardNotFound", "}", "assign result = make(map[string][]models.ShardID)", "range shardID,shardState := shards", "{", "if", "cond shardState.State == models.OnlineShard", "{", "assign node = liveNodes[shardState.Leader]", "assign nodeID = node.Indicator()", "assign result[nodeID] = append(result[nodeID], shardID)", "}", "else", "{", "}", "}", "return result,nil"] := by
+  decide
+
+/-- `LeadersOnNode(id)` for ANY set of databases: shard `sid` is listed under database `db` iff `db` has a
+shard state for `sid` whose leader is `id` — every database gets its own list (nothing of another
+database's list shows up in it), and a database without such a shard has no entry at all -/
+theorem leadersOnNode_spec (shards : List (Nat × List (Nat × ShardState))) (id : Nat)
+    (h : (Map.keys shards).Nodup) (db sid : Nat) :
+    (sid ∈ (Map.lookup (leadersOnNode shards id) db).getD [] ↔
+      ∃ ss s, Map.lookup shards db = some ss ∧ (sid, s) ∈ ss ∧ s.leader = (id : Int)) ∧
+    (Map.lookup (leadersOnNode shards id) db ≠ some []) := by
+  unfold leadersOnNode
+  rw [collectOnNode_eq _ shards h, lookup_collected _ shards db h]
+  cases hl : Map.lookup shards db with
+  | none => simp
+  | some ss =>
+    simp only [Option.bind]
+    by_cases he : idsOf (fun s : ShardState => decide (s.leader = (id : Int))) ss = []
+    · rw [if_pos he]
+      refine ⟨?_, by simp⟩
+      constructor
+      · intro hx; simp at hx
+      · rintro ⟨ss', s, hss, hin, hld⟩
+        cases hss
+        have : sid ∈ idsOf (fun s : ShardState => decide (s.leader = (id : Int))) ss := by
+          simp only [idsOf, List.mem_map, List.mem_filter]
+          exact ⟨(sid, s), ⟨hin, by simp [hld]⟩, rfl⟩
+        rw [he] at this; simp at this
+    · rw [if_neg he]
+      refine ⟨?_, by simpa using he⟩
+      simp only [Option.getD_some, idsOf, List.mem_map, List.mem_filter]
+      constructor
+      · rintro ⟨e, ⟨hin, hp⟩, rfl⟩
+        exact ⟨ss, e.2, rfl, hin, by simpa using hp⟩
+      · rintro ⟨ss', s, hss, hin, hld⟩
+        cases hss
+        exact ⟨(sid, s), ⟨hin, by simp [hld]⟩, rfl⟩
+
+/-- `ReplicasOnNode(id)` for ANY set of databases: shard `sid` is listed under `db` iff `db`'s assignment
+gives `sid` a replica list containing `id` -/
+theorem replicasOnNode_spec (asg : List (Nat × Assignment)) (id : Nat)
+    (h : (Map.keys asg).Nodup) (db sid : Nat) :
+    sid ∈ (Map.lookup (replicasOnNode asg id) db).getD [] ↔
+      ∃ a rs, Map.lookup asg db = some a ∧ (sid, rs) ∈ a ∧ id ∈ rs := by
+  unfold replicasOnNode
+  rw [collectOnNode_eq _ asg h, lookup_collected _ asg db h]
+  cases hl : Map.lookup asg db with
+  | none => simp
+  | some a =>
+    simp only [Option.bind]
+    have hmem : sid ∈ idsOf (fun rs : List Nat => rs.contains id) a ↔ ∃ rs, (sid, rs) ∈ a ∧ id ∈ rs := by
+      simp only [idsOf, List.mem_map, List.mem_filter]
+      constructor
+      · rintro ⟨e, ⟨hin, hp⟩, rfl⟩; exact ⟨e.2, hin, by simpa using hp⟩
+      · rintro ⟨rs, hin, hp⟩; exact ⟨(sid, rs), ⟨hin, by simpa using hp⟩, rfl⟩
+    by_cases he : idsOf (fun rs : List Nat => rs.contains id) a = []
+    · rw [if_pos he]
+      constructor
+      · intro hx; simp at hx
+      · rintro ⟨a', rs, ha, hin, hp⟩
+        cases ha
+        have := hmem.mpr ⟨rs, hin, hp⟩
+        rw [he] at this; simp at this
+    · rw [if_neg he]
+      simp only [Option.getD_some]
+      rw [hmem]
+      constructor
+      · rintro ⟨rs, hin, hp⟩; exact ⟨a, rs, rfl, hin, hp⟩
+      · rintro ⟨a', rs, ha, hin, hp⟩; cases ha; exact ⟨rs, hin, hp⟩
+
+/-- REFINEMENT: the handlers written with the helpers, as state_manager.go writes them (`step2`:
+NodeOnline → onNodeStartup over ReplicasOnNode; NodeOffline → onNodeFailure over LeadersOnNode;
+DropDatabase), compute exactly `Master.step` on every state satisfying the invariant — any number of
+databases, any shard sets -/
+theorem helpers_refine_step (st : St) (h : Inv st) (ev : Event) : step2 st ev = step st ev :=
+  step2_eq_step_of_inv st h ev
+
+/-- … hence along every event sequence; every theorem about `run` is a theorem about `run2` -/
+theorem helpers_refine_run (es : List Event) (hw : ∀ e ∈ es, WellFormed e) :
+    run2 St.init es = run St.init es ∧ Inv (run2 St.init es) := by
+  have := run2_eq_run_of_inv es St.init inv_init hw
+  exact ⟨this, this ▸ inv_reachable es hw⟩
+
+/-- `ElectLeader` is "the first alive replica in replica order": it answers `l` iff the replica list
+splits as `pre ++ l :: post` with `l` alive and nobody in `pre` alive; it fails iff no replica is alive -/
+theorem electLeader_first_alive (rs live : List Nat) :
+    (∀ l, electLeader rs live = some l ↔
+      ∃ pre post, rs = pre ++ l :: post ∧ l ∈ live ∧ ∀ x ∈ pre, x ∉ live) ∧
+    (electLeader rs live = none ↔ ∀ r ∈ rs, r ∉ live) :=
+  ⟨electLeader_some_iff rs live, electLeader_none_iff rs live⟩
+
+/-- the choice is stable under every change of the live set that keeps the leader alive and revives no
+replica that was dead (nodes outside the replica list may come and go freely) -/
+theorem electLeader_choice_stable (rs live live' : List Nat) (l : Nat) (h : electLeader rs live = some l)
+    (hl : l ∈ live') (hpre : ∀ x ∈ rs, x ∈ live' → x ∈ live) : electLeader rs live' = some l :=
+  electLeader_stable rs live live' l h hl hpre
+
+/-- STABILITY of the reported leader: once a shard is online with leader `l`, its state entry stays
+exactly as it is through every later event sequence that contains no failure of `l`, no re-delivery
+of its database's assignment and no drop of its database — other nodes (also other replicas of the
+shard, also earlier ones in replica order) may start and fail freely, other databases may be created,
+grown and dropped -/
+theorem leader_unchanged_while_alive (es fs : List Event) (hw : ∀ e ∈ es, WellFormed e)
+    (hw' : ∀ e ∈ fs, WellFormed e) (db sid l : Nat) (ss : List (Nat × ShardState)) (s : ShardState)
+    (hss : Map.lookup (run St.init es).shards db = some ss) (hs : Map.lookup ss sid = some s)
+    (hon : s.state = stOnline) (hl : s.leader = (l : Int)) (hq : ∀ e ∈ fs, ¬ Touches db l e) :
+    ∃ ss', Map.lookup (run St.init (es ++ fs)).shards db = some ss' ∧ Map.lookup ss' sid = some s := by
+  rw [run_append]
+  exact leader_stable_run fs _ (inv_reachable es hw) hw' db sid l ss s hss hs hon hl hq
+
+/-- START-UP / FAIL-OVER IN ANY ORDER: let the new master be handed one event per repository key
+(registered nodes, database configs, persisted assignments) in ANY order `es` (any permutation of
+`repoEvents r` — assignments before nodes, nodes in between, …). Then the invariant holds, exactly the
+registered nodes are live, the manager holds every persisted assignment, and EVERY shard of EVERY
+persisted assignment is reported, online iff one of its replicas is registered, led by a registered
+replica. (An assignment handled while no node is known yet builds offline states that the node
+start-ups revive — no order leaves a shard unreported.) -/
+theorem startup_any_order (r : Repo) (hk : (Map.keys r.asgs).Nodup)
+    (hr : ∀ p ∈ r.asgs, (Map.keys p.2).Nodup) (es : List Event) (hp : es.Perm (repoEvents r)) :
+    let st := run St.init es
+    Inv st ∧ (∀ n, n ∈ st.live ↔ n ∈ r.live) ∧
+    ∀ db a, Map.lookup r.asgs db = some a →
+      Map.lookup st.asg db = some a ∧
+      ∀ sid rs, Map.lookup a sid = some rs →
+        ∃ ss s, Map.lookup st.shards db = some ss ∧ Map.lookup ss sid = some s ∧
+          (s.state = stOnline ↔ ∃ x, x ∈ rs ∧ x ∈ r.live) ∧
+          (s.state = stOnline → ∃ l : Nat, s.leader = (l : Int) ∧ l ∈ r.live ∧ l ∈ rs) ∧
+          (s.state ≠ stOnline → s.state = stOffline ∧ s.leader = -1) := by
+  intro st
+  have hmem : ∀ e, e ∈ es ↔ e ∈ repoEvents r := fun e => hp.mem_iff
+  have hrepo : ∀ e, e ∈ repoEvents r ↔
+      (∃ n ∈ r.live, e = .nodeUp n) ∨ (∃ d ∈ r.cfgs, e = .dbCfg d) ∨
+      (∃ p ∈ r.asgs, e = .assignChanged p.1 p.2) := by
+    intro e
+    simp only [repoEvents, List.mem_append, List.mem_map, or_assoc]
+    constructor
+    · rintro (⟨n, hn, rfl⟩ | ⟨d, hd, rfl⟩ | ⟨p, hpp, rfl⟩)
+      · exact Or.inl ⟨n, hn, rfl⟩
+      · exact Or.inr (Or.inl ⟨d, hd, rfl⟩)
+      · exact Or.inr (Or.inr ⟨p, hpp, rfl⟩)
+    · rintro (⟨n, hn, rfl⟩ | ⟨d, hd, rfl⟩ | ⟨p, hpp, rfl⟩)
+      · exact Or.inl ⟨n, hn, rfl⟩
+      · exact Or.inr (Or.inl ⟨d, hd, rfl⟩)
+      · exact Or.inr (Or.inr ⟨p, hpp, rfl⟩)
+  have hw : ∀ e ∈ es, WellFormed e := by
+    intro e he
+    rcases (hrepo e).mp ((hmem e).mp he) with ⟨n, _, rfl⟩ | ⟨d, _, rfl⟩ | ⟨p, hpp, rfl⟩
+    · trivial
+    · trivial
+    · exact hr p hpp
+  have hinv : Inv st := inv_reachable es hw
+  have hlive : ∀ n, n ∈ st.live ↔ n ∈ r.live := by
+    intro n
+    rw [live_is_event_history, aliveAfter_no_down n es false (by
+      intro e he id hid
+      subst hid
+      rcases (hrepo _).mp ((hmem _).mp he) with ⟨n, _, h⟩ | ⟨d, _, h⟩ | ⟨p, _, h⟩ <;> cases h)]
+    rw [hmem, hrepo]
+    constructor
+    · rintro (h | ⟨n', hn', h⟩ | ⟨d, _, h⟩ | ⟨p, _, h⟩)
+      · cases h
+      · cases h; exact hn'
+      · cases h
+      · cases h
+    · intro hn; exact Or.inr (Or.inl ⟨n, hn, rfl⟩)
+  refine ⟨hinv, hlive, ?_⟩
+  intro db a hdb
+  have hasg : Map.lookup st.asg db = some a := by
+    apply asg_run_unique es St.init db a
+    · intro e he d hd
+      subst hd
+      rcases (hrepo _).mp ((hmem _).mp he) with ⟨n, _, h⟩ | ⟨d', _, h⟩ | ⟨p, _, h⟩ <;> cases h
+    · intro a' ha'
+      rcases (hrepo _).mp ((hmem _).mp ha') with ⟨n, _, h⟩ | ⟨d', _, h⟩ | ⟨p, hpp, h⟩
+      · cases h
+      · cases h
+      · cases h
+        have := lookup_of_mem r.asgs p.1 p.2 hk hpp
+        rw [hdb] at this
+        exact (Option.some.inj this).symm
+    · exact (hmem _).mpr ((hrepo _).mpr (Or.inr (Or.inr ⟨(db, a), mem_of_lookup _ _ _ hdb, rfl⟩)))
+  refine ⟨hasg, ?_⟩
+  intro sid rs hsid
+  obtain ⟨ss, hss⟩ := hinv.has_states db a hasg
+  obtain ⟨a', ha', hok⟩ := hinv.db_ok db ss hss
+  rw [hasg] at ha'; cases ha'
+  obtain ⟨s, hs⟩ := hok.reported sid rs hsid
+  obtain ⟨rs', hrs', hso⟩ := hok.shard_ok sid s hs
+  rw [hsid] at hrs'; cases hrs'
+  refine ⟨ss, s, hss, hs, ?_, ?_, hso.offline⟩
+  · rw [hso.online_iff]
+    constructor
+    · rintro ⟨x, hx, hl⟩; exact ⟨x, hx, (hlive x).mp hl⟩
+    · rintro ⟨x, hx, hl⟩; exact ⟨x, hx, (hlive x).mpr hl⟩
+  · intro ho
+    obtain ⟨l, k1, k2, k3⟩ := hso.leader_ok ho
+    exact ⟨l, k1, (hlive l).mp k2, k3⟩
+
+/-- node id reuse: whatever happened before (failures of the node, drops and re-creations, other
+nodes), a start-up event of node `id` leaves every assigned shard that has `id` among its replicas
+online -/
+theorem node_startup_revives (es : List Event) (hw : ∀ e ∈ es, WellFormed e) (id : Nat) :
+    let st := run St.init (es ++ [.nodeUp id])
+    ∀ db a sid rs, Map.lookup st.asg db = some a → Map.lookup a sid = some rs → id ∈ rs →
+      ∃ ss s, Map.lookup st.shards db = some ss ∧ Map.lookup ss sid = some s ∧ s.state = stOnline := by
+  intro st db a sid rs hdb hsid hid
+  have hw' : ∀ e ∈ es ++ [Event.nodeUp id], WellFormed e := by
+    intro e he
+    rcases List.mem_append.mp he with h | h
+    · exact hw e h
+    · simp at h; subst h; trivial
+  have hinv : Inv st := inv_reachable _ hw'
+  have hlive : id ∈ st.live := by
+    show id ∈ (run St.init (es ++ [.nodeUp id])).live
+    rw [run_append]
+    exact (mem_live_step _ (.nodeUp id) id).mpr (Or.inr rfl)
+  obtain ⟨ss, hss⟩ := hinv.has_states db a hdb
+  obtain ⟨a', ha', hok⟩ := hinv.db_ok db ss hss
+  rw [hdb] at ha'; cases ha'
+  obtain ⟨s, hs⟩ := hok.reported sid rs hsid
+  obtain ⟨rs', hrs', hso⟩ := hok.shard_ok sid s hs
+  rw [hsid] at hrs'; cases hrs'
+  exact ⟨ss, s, hss, hs, hso.online_iff.mpr ⟨id, hid, hlive⟩⟩
+
+/-- a (re-)created database starts from scratch: what the manager holds for `db` after an assignment
+event is a function of the payload and the live set alone — nothing of a dropped predecessor with the
+same name (other replica factor, other nodes, other shard count) is carried over -/
+theorem recreate_is_fresh (st : St) (db : Nat) (a : Assignment) :
+    Map.lookup (step st (.assignChanged db a)).asg db = some a ∧
+    Map.lookup (step st (.assignChanged db a)).shards db = some (initShardStates a st.live) :=
+  ⟨Map.lookup_upsert_self _ _ _, Map.lookup_upsert_self _ _ _⟩
+
+/-- THE CONSUMER: in every reachable state, for every database, the broker's `GetQueryableReplicas`
+finds the leader of EVERY online shard among the published live nodes (never the zero node), and that
+leader is a replica of the shard -/
+theorem published_leader_resolves (es : List Event) (hw : ∀ e ∈ es, WellFormed e) :
+    let st := run St.init es
+    ∀ db targets, queryTargets st db = some targets → ∀ sid t, (sid, t) ∈ targets →
+      ∃ (l : Nat) (a : Assignment) (rs : List Nat), t = some l ∧ l ∈ st.live ∧
+        Map.lookup st.asg db = some a ∧ Map.lookup a sid = some rs ∧ l ∈ rs := by
+  intro st db targets hq sid t hin
+  have hinv : Inv st := inv_reachable es hw
+  unfold queryTargets at hq
+  cases hss : Map.lookup st.shards db with
+  | none => rw [hss] at hq; simp at hq
+  | some ss =>
+    rw [hss] at hq
+    simp only [Option.map_some, Option.some.injEq] at hq
+    subst hq
+    simp only [List.mem_map, List.mem_filter] at hin
+    obtain ⟨e, ⟨he, hon⟩, heq⟩ := hin
+    obtain ⟨a, ha, hok⟩ := hinv.db_ok db ss hss
+    have hl := lookup_of_mem ss e.1 e.2 hok.st_keys he
+    obtain ⟨rs, hrs, hso⟩ := hok.shard_ok e.1 e.2 hl
+    have hon' : e.2.state = stOnline := by simpa using hon
+    obtain ⟨l, k1, k2, k3⟩ := hso.leader_ok hon'
+    have h1 : e.1 = sid := (Prod.mk.inj heq).1
+    have h2 := (Prod.mk.inj heq).2
+    refine ⟨l, a, rs, ?_, k2, ha, h1 ▸ hrs, k3⟩
+    rw [← h2, k1]
+    simp [k2]
+
+/-- non-vacuity / discrimination: with ONE scratch slice shared by all databases (`aliasedLists`) node 1
+leading db 0 / shard 0 and db 1 / shard 1 would be reported as leading db 0 / shard 1 — the real helper
+(and `leadersOnNode_spec`) says shard 0 -/
+example :
+    let sh : List (Nat × List (Nat × ShardState)) :=
+      [(0, [(0, { state := stOnline, leader := 1, replicas := [1, 2] }), (1, { state := stOnline, leader := 2, replicas := [2, 1] })]),
+       (1, [(0, { state := stOnline, leader := 2, replicas := [2, 1] }), (1, { state := stOnline, leader := 1, replicas := [1, 2] })])]
+    leadersOnNode sh 1 = [(0, [0]), (1, [1])] ∧ aliasedLists (leadersOnNode sh 1) = [(0, [1]), (1, [1])] := by
+  decide
+
+/-- non-vacuity / discrimination: the assignment replayed BEFORE the node start-ups — the real
+`initShardStates` builds offline states that the start-ups revive; a variant returning early while no
+node is known (`initShardStatesFast`) builds none, and then nothing is ever reported for the database -/
+example :
+    let es : List Event := [.assignChanged 0 [(0, [1, 2])], .dbCfg 0, .nodeUp 1, .nodeUp 2]
+    (run St.init es).shards = [(0, [(0, { state := stOnline, leader := 1, replicas := [1, 2] })])] ∧
+    (run2 St.init es).shards = (run St.init es).shards ∧
+    initShardStatesFast [(0, [1, 2])] St.init.live = none := by
   decide
 
 /-! ## Non-vacuity -/
